@@ -25,6 +25,10 @@
    named u) -- those theorems are named _partial; without the exclusion they are false
    (C14_keys_refuted: las["A:1"] = array; append A; append A gives keys A:1, A:1, A:2), the
    known finding suffix-clash.
+   WHICH session name keys() shows for position n (the refinement observes mnemonic-keyed calls
+   through the implementation's own keys(), audit D8) is fixed by the block "audit D8" at the
+   end of the file: C14_keys_closed_form_partial (keys = spec_keys of the list model's names on
+   histories that never take a curve out of a duplicated group) and C14_set_data_keys.
 
    The statement's "operations on one LASFile never affect another" is true BY CONSTRUCTION
    in a functional model (a world is a list of sections, wstep rewrites one component):
@@ -327,3 +331,94 @@ Print Assumptions C14_independent_history.
 Print Assumptions C14_truncate_refuted_prefix.
 Print Assumptions C14_replace_negative_refuted_prefix.
 Print Assumptions C14_keys_refuted.
+
+(* ==== BEGIN block (audit D8): keys() against the list model -- closed form of the session names ==== *)
+(* The refinement theorems above observe mnemonic-keyed calls through the implementation's own keys() (resolve
+   (keys s)); C13's invariant links keys to names only up to "useful name, optionally :<k>" and does not say WHICH k.
+   This block fixes it.  spec_keys tr names (Model/ItemsSpec.v) is a function of the list model's names alone: a name
+   whose group (matching useful mnemonics: equal, or equal up to case when the file was read with case
+   normalisation) has one member shows its useful form (UNKNOWN for a blank), the j-th member of a larger group, in
+   list order, shows <useful>:<j>.
+
+   C14_keys_closed_form_partial: after a history the keys ARE spec_keys of the names of the list model driven by the
+   same (resolved) history -- so keys [A:2; A:1] for curves [A; A] is excluded -- for histories of
+     append_curve / insert_curve / append_curve_item / insert_curve_item, update_curve, las[k] = array (update or
+     append), las[k] = CurveItem on a new key, set_data (every form), AND delete_curve / replace_curve_item /
+     las[k] = CurveItem on an existing key when the curve taken out has an un-duplicated name at that moment
+   (keeps_all, decided on the run).  No exclusion of names is needed (no_suffix_clash plays no part).
+   PARTIAL, and what is missing: deleting or replacing a member of a DUPLICATED group.  There the closed form is
+   false, because lasio does not re-number on deletion and a replacement re-numbers the group of the new item only
+   (C14_keys_closed_form_stale: A, A, delete 0 gives keys [A:2], closed form [A]); what holds for those steps is
+   C13_numbering_delete (the other keys are unchanged) and C13_numbering_replace (the new item's group is 1..n in
+   list order).  A following set_data with a non-empty array restores the closed form whatever the keys were
+   (C14_set_data_keys). *)
+Require Import KeysClosedForm KeysClosedFormDel.
+
+Theorem C14_keys_read : forall tr l,
+  keys (read_curves tr l) = spec_keys tr (List.map c_mnem l) /\ origs (read_curves tr l) = List.map c_mnem l /\
+  transforms (read_curves tr l) = tr.
+Proof. exact read_curves_canon. Qed.
+
+Theorem C14_keys_step_partial : forall s o, keys s = spec_keys (transforms s) (origs s) -> keeps s o = true ->
+  keys (step_keep s o) = spec_keys (transforms s) (origs (step_keep s o)).
+Proof. exact step_keys_keeps. Qed.
+
+Theorem C14_keys_closed_form_partial : forall ops s,
+  keys s = spec_keys (transforms s) (origs s) -> keeps_all s ops = true ->
+  keys (run s ops) = spec_keys (transforms s) (List.map e_name (fold_left spec_keep (resolved s ops) (abs s))).
+Proof. exact keys_closed_form_keeps. Qed.
+
+(* the state-independent sub-class: no delete, no replace, las[k] = CurveItem only on new keys *)
+Theorem C14_keys_grows_keeps : forall ops s, grows_all s ops = true -> keeps_all s ops = true.
+Proof. exact grows_all_keeps. Qed.
+
+Theorem C14_set_data_keys : forall s cols0 names (t : bool) s',
+  size_pos (if t then firstn (List.length (items s)) cols0 else cols0) = true ->
+  set_data s (Arr2 cols0) names t = IOk s' ->
+  keys s' = spec_keys (transforms s) (origs s') /\ transforms s' = transforms s.
+Proof. exact set_data_keys. Qed.
+
+Theorem C14_keys_closed_form_stale :
+  let ops := [OAppendCurve (cvA [1]); OAppendCurve (cvA [2]); ODelete None (Some 0%Z)] in
+  keeps_all fresh_las ops = false /\
+  keys (run fresh_las ops) = [[65; 58; 50]] /\
+  spec_keys false (origs (run fresh_las ops)) = [[65]].
+Proof. exact keys_closed_form_stale. Qed.
+
+(* non-vacuity: a read LASFile (case normalisation on), duplicates, blanks, deletion and replacement of
+   un-duplicated curves, las[k] = ..., set_data *)
+Definition ex_keep_ops : list op :=
+  [OAppendCurve (cv "a" [4]); OInsertCurve 1 (cv "" [5]); OSetItem (s2l "Q") (VArr [6]); ODelete (Some (s2l "B")) None;
+   OAppendItem (CItem (cv "" [7])); OReplace 4 (cv "A" [8]); OSetItem (s2l "UNKNOWN:1") (VArr [9]);
+   OSetItem (s2l "R") (VItem (cv "R" [10])); OUpdate None (Some 0%Z) (mkUpd None (Some (s2l "m")) None None);
+   ODelete (Some (s2l "nope")) None; OSetItem (s2l "R") (VItem (cv "R" [11]))].
+Example C14_ex_keeps :
+  let s0 := read_curves true [cv "A" [1]; cv "B" [2]; cv "A" [3]] in
+  keys s0 = spec_keys (transforms s0) (origs s0) /\ keeps_all s0 ex_keep_ops = true /\ grows_all s0 ex_keep_ops = false /\
+  keys (run s0 ex_keep_ops) = [s2l "A:1"; s2l "UNKNOWN:1"; s2l "A:2"; s2l "a:3"; s2l "A:4"; s2l "UNKNOWN:2"; s2l "R"] /\
+  List.map e_name (fold_left spec_keep (resolved s0 ex_keep_ops) (abs s0)) = [s2l "A"; []; s2l "A"; s2l "a"; s2l "A"; []; s2l "R"].
+Proof.
+  cbv zeta. split; [vm_compute; reflexivity|]. split; [vm_compute; reflexivity|].
+  split; [vm_compute; reflexivity|]. split; vm_compute; reflexivity.
+Qed.
+Example C14_ex_closed_form :
+  let s0 := read_curves true [cv "A" [1]; cv "B" [2]; cv "A" [3]] in
+  keys (run s0 ex_keep_ops) = spec_keys true (List.map e_name (fold_left spec_keep (resolved s0 ex_keep_ops) (abs s0))).
+Proof.
+  cbv zeta. apply (C14_keys_closed_form_partial ex_keep_ops (read_curves true [cv "A" [1]; cv "B" [2]; cv "A" [3]])).
+  - apply (proj1 C14_ex_keeps).
+  - apply (proj1 (proj2 C14_ex_keeps)).
+Qed.
+(* set_data wipes stale suffixes: A, A, delete 0 -> [A:2]; set_data(2 columns) -> [A, UNKNOWN] *)
+Example C14_ex_set_data_keys :
+  keys (run fresh_las [OAppendCurve (cvA [1; 2]); OAppendCurve (cvA [3; 4]); ODelete None (Some 0%Z);
+                       OSetData (Arr2 [[5; 6]; [7; 8]]) None false]) = [s2l "A"; s2l "UNKNOWN"].
+Proof. vm_compute. reflexivity. Qed.
+
+Print Assumptions C14_keys_read.
+Print Assumptions C14_keys_step_partial.
+Print Assumptions C14_keys_closed_form_partial.
+Print Assumptions C14_keys_grows_keeps.
+Print Assumptions C14_set_data_keys.
+Print Assumptions C14_keys_closed_form_stale.
+(* ==== END block (audit D8) ==== *)
